@@ -237,6 +237,7 @@ def histories(max_ticks: int = 40) -> Any:
             # workers that are gone by the time the manager signals them although its is_alive() just said yes
             "vanish": st.one_of(st.just([]), st.just([]), st.just([]), st.lists(st.integers(0, W - 1), unique=True, max_size=W).map(sorted)),
             "burst": st.sampled_from([0] * 12 + [150, 450]),
+            "wall_step": st.sampled_from([0] * 10 + [-90, -3600, 3600]),       # the host's wall clock is stepped at this tick
             # how the dying workers ended: exit status > 0, or killed by a signal (negative: SIGKILL, SIGTERM, a real-time signal, ...)
             "codes": st.dictionaries(st.sampled_from([str(i) for i in range(W)]), st.sampled_from([1, 3, 255, -9, -15, -11, -35, -64]), max_size=W),     # that many file-change events arrive within this tick
             "mid": st.one_of(st.just([]), st.just([]), st.just([]),
